@@ -333,7 +333,7 @@ func (e *psEnv) observe(status int, body []byte, panicMsg string, saves []db.Ent
 	case status == 500:
 		o = "500"
 	case status == 200:
-		items, ok := refTlvParse(body)
+		items, ok := refTlvParseStrict(body)
 		if !ok {
 			o = "unparseable-body"
 			break
